@@ -10,15 +10,17 @@ import (
 )
 
 type feat struct {
-	bareEmpty            bool // a non-null empty array/set/map that is the whole value or sits directly under named/error
-	namedEnum            bool // a non-null value of enum type under a name
-	namedOverSameName    bool // named n over named n
-	namedUnionContainer  bool // named over array/set/map whose element/key/value type is a union (under names)
-	namedInsideContainer bool // a named type below a container/union/record (defined inside the value)
-	unionField           bool // a record field of union type (under names)
+	tvNames              map[string]string // names bound inside type values
+	bareEmpty            bool              // a non-null empty array/set/map that is the whole value or sits directly under named/error
+	namedEnum            bool              // a non-null value of enum type under a name
+	namedOverSameName    bool              // named n over named n
+	namedUnionContainer  bool              // named over array/set/map whose element/key/value type is a union (under names)
+	namedInsideContainer bool              // a named type below a container/union/record (defined inside the value)
+	unionField           bool              // a record field of union type (under names)
 	anyNamed             bool
 	sameNameTwoTypes     bool // one type name bound to two different types in the case
 	namedUnionMember     bool // a union with a named member
+	typeValueRebinds     bool // a type value binds a name that the values bind to another type
 }
 
 func underSpec(t *TSpec) *TSpec {
@@ -117,17 +119,24 @@ func (f *feat) walkVal(t *TSpec, v *VSpec, undecorated bool) {
 		}
 	case "prim":
 		if t.ID == idType && v.T != nil {
-			f.walkType(v.T, 1, map[string]string{})
+			g := &feat{}
+			g.walkType(v.T, 1, f.tvNames)
+			f.anyNamed = f.anyNamed || g.anyNamed
 		}
 	}
 }
 
 func caseFeatures(cs *rtCase) *feat {
-	f := &feat{}
+	f := &feat{tvNames: map[string]string{}}
 	names := map[string]string{}
 	for _, x := range cs.Vals {
 		f.walkType(x.T, 0, names)
 		f.walkVal(x.T, x.V, true)
+	}
+	for n, d := range f.tvNames {
+		if old, ok := names[n]; ok && old != d {
+			f.typeValueRebinds = true
+		}
 	}
 	return f
 }
@@ -168,6 +177,8 @@ func classifyRT(cs *rtCase, res rtResult) string {
 		return p + "short-typedef-under-decorator"
 	case res.class == "type-mismatch" && f.namedOverSameName:
 		return p + "named-over-same-name"
+	case (res.class == "type-mismatch" || res.class == "value-mismatch" || res.class == "parse-error") && f.typeValueRebinds:
+		return p + "type-value-rebinds-name"
 	case (res.class == "type-mismatch" || res.class == "value-mismatch" || res.class == "parse-error") && f.sameNameTwoTypes:
 		return p + "same-name-two-types"
 	}
